@@ -17,7 +17,7 @@ import itertools
 import numpy as np
 import odl
 
-from .. import util
+from .. import cover, util
 
 SHARDS = {'quick': 2, 'thorough': 8}
 
@@ -527,7 +527,7 @@ def run_pspace_indexing(ctx):
                 ctx.violation('ProductSpace.' + how.split('(')[0], pn, 'raises:' + type(e).__name__, message=str(e)[:200])
         x = p.element([np.arange(s.size, dtype=float).reshape(s.shape) + 10 * k if not isinstance(s, odl.ProductSpace)
                        else [np.arange(3.) + kk + 10 * k for kk in range(len(s))] for k, s in enumerate(p)])
-        idxs = [0, -1, slice(0, 2), slice(None, None, 2), [2, 0], (1,), (slice(0, 2),), slice(1, None)]
+        idxs = [0, -1, slice(0, 2), slice(None, None, 2), [2, 0], (1,), (slice(0, 2),), slice(1, None), ()]
         if pn.startswith('nested'):
             idxs += [(1, 0), (slice(0, 2), 1), (slice(None), slice(0, 1)), (slice(1, None), 0), (slice(None, None, 2), slice(None))]
         for ix in idxs:
@@ -543,6 +543,12 @@ def run_pspace_indexing(ctx):
                     ctx.violation('ProductSpace[idx]', cfg, 'x[idx].space!=space[idx]')
                 if isinstance(subsp, odl.ProductSpace) and (p[ix] != subsp or hash(p[ix]) != hash(subsp)):
                     ctx.violation('ProductSpace[idx]', cfg, 'space[idx]!=space[idx]')
+                if ix == ():
+                    # the empty index selects everything (as for arrays): the space itself, the element itself
+                    if subsp != p:
+                        ctx.violation('ProductSpace[idx]', cfg, 'empty-index-is-not-the-space')
+                    if not (hasattr(sub, 'space') and sub.space == p and sub == x):
+                        ctx.violation('ProductSpaceElement[idx]', cfg, 'empty-index-is-not-the-element')
                 if isinstance(ix, tuple) and len(ix) == 2 and isinstance(ix[0], (slice, list)) and pn.startswith('nested'):
                     # outer selection, then the inner index in each selected component: the outer weights (and the exponent) are
                     # those of the selected outer components
@@ -734,6 +740,20 @@ def run(ctx):
                      'compared pairwise and in all triples; element creation / derived spaces / indexing cases are '
                      '(space, input kind | index expression); distinct = distinct objects / (space, input) pairs; '
                      'non-trivial = all')
+    from odl.space.pspace import ProductSpace as _PS, ProductSpaceElement as _PE
+    from odl.space.base_tensors import TensorSpace as _TS, Tensor as _T
+    from odl.space.npy_tensors import NumpyTensorSpace as _NS, NumpyTensor as _NT
+    from odl.discr.discr_space import DiscretizedSpace as _DS, DiscretizedSpaceElement as _DE
+    from odl.set.domain import IntervalProd as _IP
+    from odl.discr.grid import RectGrid as _RG
+    from odl.discr.partition import RectPartition as _RP
+    cov = cover.Cover()
+    for c_ in (_PS, _PE, _TS, _T, _NS, _NT, _DS, _DE, _IP, _RG, _RP):
+        for m_ in ('__eq__', '__hash__', '__contains__', '__getitem__', '__setitem__', 'element', 'astype', '_astype', 'byaxis', 'byaxis_in',
+                   'real_space', 'complex_space', 'contains_set', 'contains_all', '__len__'):
+            if m_ in vars(c_):
+                cov.add(vars(c_)[m_], '%s.%s' % (c_.__name__, m_))
+    cov.arm()
     pool = base_pool() + build_twins(ctx)
     law_checks(ctx, pool)
     if ctx.shard == 0:
@@ -741,6 +761,7 @@ def run(ctx):
         run_pspace_indexing(ctx)
         if ctx.thorough and ctx.round == 0:
             run_ambient(ctx)
+    cover.report_to(ctx, cov)
     for m in ('equivalence-laws', 'membership'):
         ctx.ev(m, 0)
     ctx.sample({'pool_example_types': sorted(set(tname(o) for _t, o in pool))[:40]})
